@@ -84,6 +84,14 @@ func (h *NFSProcedureHandler) handleCreate(body io.Reader, reply *RPCReply, auth
 		return nfsErrorWithWcc(reply, NFSERR_STALE), nil
 	}
 
+	// The handle must name a directory (a file or symlink handle is NFS3ERR_NOTDIR).
+	node.mu.RLock()
+	isDir := node.attrs != nil && node.attrs.Mode&os.ModeDir != 0
+	node.mu.RUnlock()
+	if !isDir {
+		return nfsErrorWithWcc(reply, NFSERR_NOTDIR), nil
+	}
+
 	// R23: Return NFS error instead of nil,err
 	dirPreAttrs, err := h.server.handler.GetAttr(node)
 	if err != nil {
@@ -226,6 +234,14 @@ func (h *NFSProcedureHandler) handleMkdir(body io.Reader, reply *RPCReply, authC
 		return nfsErrorWithWcc(reply, NFSERR_STALE), nil
 	}
 
+	// The handle must name a directory (a file or symlink handle is NFS3ERR_NOTDIR).
+	node.mu.RLock()
+	isDir := node.attrs != nil && node.attrs.Mode&os.ModeDir != 0
+	node.mu.RUnlock()
+	if !isDir {
+		return nfsErrorWithWcc(reply, NFSERR_NOTDIR), nil
+	}
+
 	// R23: Return NFS error instead of nil,err
 	dirPreAttrs, err := h.server.handler.GetAttr(node)
 	if err != nil {
@@ -356,6 +372,14 @@ func (h *NFSProcedureHandler) handleSymlink(body io.Reader, reply *RPCReply, aut
 	node, ok := h.lookupNode(handleVal)
 	if !ok {
 		return nfsErrorWithWcc(reply, NFSERR_STALE), nil
+	}
+
+	// The handle must name a directory (a file or symlink handle is NFS3ERR_NOTDIR).
+	node.mu.RLock()
+	isDir := node.attrs != nil && node.attrs.Mode&os.ModeDir != 0
+	node.mu.RUnlock()
+	if !isDir {
+		return nfsErrorWithWcc(reply, NFSERR_NOTDIR), nil
 	}
 
 	// R23: Return NFS error instead of nil,err
